@@ -1,6 +1,11 @@
 package sim
 
-import kcp "github.com/xtaci/kcp-go/v5"
+import (
+	"sync/atomic"
+	"time"
+
+	kcp "github.com/xtaci/kcp-go/v5"
+)
 
 // Always-on invariants evaluated at every quiescence of every session-level
 // run (O-bounds): the RTO bound of C18 and the occupancy limits of C04.
@@ -36,9 +41,52 @@ func (ep *Endpoint) minRTOCfg() uint32 {
 	return 100
 }
 
+// silenceLimit: a session that holds unsent or unacknowledged data transmits at
+// least this often whatever happens - a retransmission (timeout at most 60 s) or
+// a zero-window probe (interval at most 120 s).
+const silenceLimit = 150 * time.Second
+
 // InstallBounds adds the always-on invariants to the simulator.
 func (w *World) InstallBounds() {
 	s := w.S
+	// O-silence (C02): a sender with a backlog never falls silent. Emissions are
+	// counted where they are handed to the transport, whatever the network does
+	// with them afterwards, so outages and loss do not matter here.
+	lastEmit := map[*Endpoint]time.Duration{}
+	prevEmit := s.OnEmit
+	s.OnEmit = func(p *OutPkt) {
+		if prevEmit != nil {
+			prevEmit(p)
+		}
+		if ep := w.byFlow[p.Src.addrStr+">"+p.Dst]; ep != nil {
+			lastEmit[ep] = s.Now()
+		}
+	}
+	s.Invariants = append(s.Invariants, func() {
+		if w.TearingDown || w.NoSilenceCheck {
+			return
+		}
+		now := s.Now()
+		for _, ep := range w.Eps {
+			if ep.Closed || ep.CloseInvoked || ep.Conn.IsClosed() || atomic.LoadInt32(&ep.Conn.WriteErrs) > 0 {
+				delete(lastEmit, ep)
+				continue
+			}
+			st := ep.StateLite()
+			if st.SndQueue+st.SndBuf == 0 {
+				lastEmit[ep] = now // nothing it would have to send
+				continue
+			}
+			last, ok := lastEmit[ep]
+			if !ok {
+				lastEmit[ep] = now
+				continue
+			}
+			if now-last > silenceLimit {
+				s.Fail("C02", "liveness", "sender-silent-with-backlog", "%s holds %d queued and %d in-flight segments and has handed nothing to the transport for %v (una=%d nxt=%d rmt_wnd=%d cwnd=%d rto=%d probe_wait=%d)", ep.Name, st.SndQueue, st.SndBuf, now-last, st.SndUna, st.SndNxt, st.RmtWnd, st.Cwnd, st.RxRto, st.ProbeWait)
+			}
+		}
+	})
 	s.Invariants = append(s.Invariants, func() {
 		w.noteWrongRatioRecovery()
 		for _, ep := range w.Eps {
